@@ -172,12 +172,38 @@ void run_history(Tape& t, Ctx& ctx, const char* oname) {
     // for the time-point route the durations the optimizer sees are the rounded differences of the points
     InitInput eff = in;
     if (by_points) {
+      // a sixth of the time-point submissions use stamps far from zero (1e6 ... epoch scale), where one millisecond is a few
+      // hundred to a few million ulps, and place one stamp so that the difference the optimizer forms is the largest
+      // representable one below, or the smallest one at or above, one millisecond
+      int near_seg = -1; bool below = false;
+      if (N >= 1 && std::isfinite(in.t0) && t.chance(1, 6)) {
+        static const double kFar[] = {1e6, -3e6, 1.7e9, 1099511627776.0, -2.5e8, 123456.789};
+        in.t0 = kFar[t.range(0, 5)];
+        near_seg = t.range(0, N - 1); below = t.flag();
+        ctx.label("time-points:far-from-zero-at-threshold");
+      }
       tp.resize(N + 1); tp[0] = in.t0;
-      for (int i = 0; i < N; ++i) tp[i + 1] = tp[i] + in.T[i];
+      for (int i = 0; i < N; ++i) {
+        tp[i + 1] = tp[i] + in.T[i];
+        if (i == near_seg) {
+          double c = tp[i] + 1e-3;
+          while (c - tp[i] >= 1e-3) c = std::nextafter(c, -INFINITY);   // largest stamp whose difference is below 1 ms
+          if (!below) c = std::nextafter(c, INFINITY);                    // smallest stamp whose difference reaches 1 ms
+          tp[i + 1] = c; near = true;
+        }
+      }
       for (int i = 0; i < N; ++i) eff.T[i] = tp[i + 1] - tp[i];
       eff.t0 = tp[0];
     }
     bool expected = expect_valid<ORDER>(eff, &off);
+    // the optimisation flags say which quantities are decision variables; they have no say in what a valid problem is
+    if (t.chance(1, 3)) {
+      unsigned fb = (unsigned)t.range(0, 255);
+      OptimizationFlags f;
+      f.start_p = fb & 1; f.start_v = fb & 2; f.start_a = fb & 4; f.start_j = fb & 8; f.end_p = fb & 16; f.end_v = fb & 32; f.end_a = fb & 64; f.end_j = fb & 128;
+      opt.setOptimizationFlags(f);
+      ctx.label("flags-set-before-init");
+    }
     bool ret;
     {
       typename Opt::WaypointsType W = in.P;
